@@ -13,6 +13,7 @@ import TbotVerif.Driver.Files
 import TbotVerif.Driver.Run
 import TbotVerif.Driver.UBoot
 import TbotVerif.Driver.SubIO
+import TbotVerif.Driver.Guard
 /-! Line-protocol driver: one request per line on stdin, one answer per line on stdout.
     Anything malformed or unknown is answered with `bad-op` — never with a default. -/
 
@@ -20,7 +21,7 @@ def handle (line : String) : String :=
   let toks := (line.splitOn " ").filter (· != "")
   match toks with
   | ["ping"] => "pong"
-  | _ => (Driver.Chan.handle toks <|> Driver.Path.handle toks <|> Driver.Life.handle toks <|> Driver.Ctx.handle toks <|> Driver.Tc.handle toks <|> Driver.Log.handle toks <|> Driver.Ssh.handle toks <|> Driver.Shell.handle toks <|> Driver.Board.handle toks <|> Driver.Quote.handle toks <|> Driver.Env.handle toks <|> Driver.Files.handle toks <|> Driver.Run.handle toks <|> Driver.UBoot.handle toks <|> Driver.SubIO.handle toks).getD "bad-op"
+  | _ => (Driver.Chan.handle toks <|> Driver.Path.handle toks <|> Driver.Life.handle toks <|> Driver.Ctx.handle toks <|> Driver.Tc.handle toks <|> Driver.Log.handle toks <|> Driver.Ssh.handle toks <|> Driver.Shell.handle toks <|> Driver.Board.handle toks <|> Driver.Quote.handle toks <|> Driver.Env.handle toks <|> Driver.Files.handle toks <|> Driver.Run.handle toks <|> Driver.UBoot.handle toks <|> Driver.SubIO.handle toks <|> Driver.Guard.handle toks).getD "bad-op"
 
 partial def loop (hin hout : IO.FS.Stream) : IO Unit := do
   let line ← hin.getLine
